@@ -412,6 +412,8 @@ def _observe(case):
     if res['out'] == bytes(BAD_REQUEST_RESPONSE_PKT):
         return '400', None, res['opened']
     p = parse_ok(res['out'])
+    if p is None and res['out'].startswith(b'HTTP/1.1 200 OK\r\n'):
+        return 'body-does-not-undo-advertised-encoding', None, res['opened']
     if p is None or not p[2]:
         return 'other', None, res['opened']
     return '200', p[3], res['opened']
